@@ -380,7 +380,10 @@ func (inv *Invoice) validatePrecedingData(o *CorrectionOptions, cd *tax.Correcti
 		if s == nil {
 			return fmt.Errorf("missing stamp: %v", k)
 		}
-		pre.Stamps = append(pre.Stamps, s)
+		// copy the stamp so that the preceding row does not share memory with
+		// the header (or options) it was taken from.
+		sc := *s
+		pre.Stamps = append(pre.Stamps, &sc)
 	}
 
 	if len(cd.Types) > 0 && !o.Type.In(cd.Types...) {
